@@ -289,8 +289,13 @@ class Facts:
 # pretty printer (pseudo-Rust, for reports and debugging)
 
 
+PAT_KINDS = {'Wild', 'Bind', 'PLit', 'PPath', 'PTS', 'PStruct', 'POr', 'PTup', 'PRef', 'PDeref', 'PRange', 'PSlice'}
+
+
 def pp(n, depth=0, maxlen=None):
-    s = _pp(n, depth)
+    if n is None:
+        return ''
+    s = _pp_pat(n) if n.get('k') in PAT_KINDS else _pp(n, depth)
     if maxlen and len(s) > maxlen:
         s = s[:maxlen - 1] + '…'
     return s
